@@ -262,6 +262,13 @@ VARIANTS += [
     V("twin: rename counts -> cnt in _finalize_results", ("C05", "C11"), "", "core.py", "", "", expect="silent", transform=("rename", "_finalize_results", "counts", "cnt")),
     V("twin: rename reindexer -> rx in dask_groupby_agg", ("C02", "C14"), "", "core.py", "", "", expect="silent", transform=("rename", "dask_groupby_agg", "reindexer", "rx")),
     V("twin: rename reindexed -> out_ in reindex_", ("C19", "C13"), "", "core.py", "", "", expect="silent", transform=("rename", "reindex_", "reindexed", "out_")),
+    V("twin: rename groups_in_block -> per_blk in dask_groupby_agg", ("C16", "C19"), "", "core.py", "", "", expect="silent", transform=("rename", "dask_groupby_agg", "groups_in_block", "per_blk")),
+    V("twin: rename idx -> codes in _factorize_single", ("C07", "C05", "C01"), "", "core.py", "", "", expect="silent", transform=("rename", "_factorize_single", "idx", "codes")),
+    V("twin: rename flat -> lab in _factorize_single", ("C07", "C05", "C01"), "", "core.py", "", "", expect="silent", transform=("rename", "_factorize_single", "flat", "lab")),
+    V("twin: rename found_groups -> labs in _factorize_multiple", ("C07", "C02"), "", "core.py", "", "", expect="silent", transform=("rename", "_factorize_multiple", "found_groups", "labs")),
+    V("twin: rename qorder-free: rename out -> res in _np_grouped_op", ("C18", "C01"), "", "aggregate_flox.py", "", "", expect="silent", transform=("rename", "_np_grouped_op", "out", "res")),
+    V("twin: rename parts -> pp in get_parts", ("C03", "C06"), "", "dask_array_ops.py", "", "", expect="silent", transform=("rename", "get_parts", "parts", "pp")),
+    V("twin: rename final_dtype -> fd in _initialize_aggregation", ("C11", "C20"), "", "aggregations.py", "", "", expect="silent", transform=("rename", "_initialize_aggregation", "final_dtype", "fd")),
     V("twin: rename token -> tok in dask_groupby_agg", ("C14", "C09"), "", "core.py", "", "", expect="silent", transform=("rename", "dask_groupby_agg", "token", "tok")),
 ]
 
